@@ -2,7 +2,7 @@
    Model: Model/Cluster.v = N instances of the timed group model (Model/Group.v) + an adversarial gossip channel for
    notification-log entries + crash / restart (with or without log state).
    Only statements; proofs in Proofs/ClusterProofs.v (on top of Proofs/GroupProofs.v). *)
-From AM Require Import Base.Prelude Model.Group Model.Cluster Proofs.GroupProofs Proofs.ClusterProofs.
+From AM Require Import Base.Prelude Model.Group Model.Cluster Proofs.GroupProofs Proofs.ClusterProofs Model.Position Proofs.PositionProofs.
 
 (* ENTRIES COME FROM SENDS: in ANY cluster run — any crashes and restarts, any loss / delay / duplication /
    reordering / partition (the adversary picks which logged entries are merged where and when) — every log entry
@@ -73,6 +73,25 @@ Theorem c08_delivered_entry_is_merged cfg c i t k en c' o :
   exists s' r, c_inst c' !! i = Some s' /\ s_nflog s' !! k = Some (Some r) /\ n_ts en <= n_ts r.
 Proof. exact (delivered_entry_is_merged cfg c i t k en c' o). Qed.
 
+(* Positions (cluster.Peer.Position = rank of the instance's name among the members' names): two different members
+   never have the same position, every position is below the member count, and some member has position 0 — so the
+   cluster waits of the members are pairwise different multiples of the peer timeout and one instance does not wait.
+   Tied by the membership histories on real memberlists in harness/c08 (part "p", Run/PosRun.v). *)
+Theorem c08_positions_distinct a b members :
+  In a members -> In b members -> a <> b -> position a members <> position b members.
+Proof. exact (positions_distinct a b members). Qed.
+
+Theorem c08_position_in_range a members : In a members -> (position a members < length members)%nat.
+Proof. exact (position_in_range a members). Qed.
+
+Theorem c08_some_member_does_not_wait members :
+  members <> [] -> exists a, In a members /\ position a members = 0%nat.
+Proof. exact (some_member_has_position_zero members). Qed.
+
+Example c08_positions_nonvacuous :
+  map (fun n => position n ["am-2"; "am-10"; "Am-1"; "am-1"]) ["am-2"; "am-10"; "Am-1"; "am-1"] = [3; 2; 0; 1]%nat.
+Proof. vm_compute. reflexivity. Qed.
+
 (* ---- non-vacuity: two instances; B (position 1) receives A's entry during its cluster wait and stays silent;
         then A crashes and B, partitioned, sends the repeat itself ---- *)
 Definition ex_cfg := mkG 30 300 1000 320 100000 [mkI true].
@@ -136,3 +155,6 @@ Print Assumptions c08_entries_come_from_sends.
 Print Assumptions c08_silent_only_if_another_instance_sent.
 Print Assumptions c08_covering_entry_silences.
 Print Assumptions c08_delivered_entry_is_merged.
+Print Assumptions c08_positions_distinct.
+Print Assumptions c08_position_in_range.
+Print Assumptions c08_some_member_does_not_wait.
